@@ -108,6 +108,14 @@ def main(pid):
         rep.count("states", r0.distinct)
         rep.count("transitions", r0.generated)
         rep.cov["protocol_model"] = {"distinct_states": r0.distinct, "depth": r0.depth}
+        if thorough:
+            # deeper bounds of the same protocol: one class with many members of every role (wide), and a chain of
+            # four classes whose ids depend on every unnamed virtual slot before them (long)
+            for tag, cfg in (("wide", "MexIds_wide.cfg"), ("long", "MexIds_long.cfg")):
+                rd = tlc.run("MexIds", cfg, workers=common.NCPU, timeout=3000)
+                rep.count("states", rd.distinct)
+                rep.count("transitions", rd.generated)
+                rep.cov["protocol_model_" + tag] = {"distinct_states": rd.distinct, "depth": rd.depth}
     plan = [("sim", dict(n=2500 if thorough else 200, target=10)),
             ("exh", dict(universe="classes", target=4, members=3, sample=4000 if thorough else 250)),
             ("exh", dict(universe="sigs", maxargs=3 if thorough else 2, target=2, members=1, sample=5000 if thorough else 400)),
